@@ -200,8 +200,6 @@ def run(ctx):
         for _ in range(3):
             c = make_case(spec, text, it, rng)
             c.meta["search_for"] = cls
-            if not main:
-                c.check_outputs = False
             search.append(c)
     execlib.evaluate(cases + search, "c07", expr_fn=report_expr, imports=TIE_IMPORTS)
 
